@@ -98,7 +98,9 @@ def run(ctx):
         r = v["rules"]
         if not r["scoped"] or not r["signers"]:
             raise Infra("driver produced a request / signing plan outside the specification's scope (case %d)" % c["id"])
-        spenders = {a["acct"] for a in c["actions"] if a["kind"] == "spend"}
+        owner = {f["id"]: f["acct"] for f in c["funding"]}
+        spenders = {a["acct"] for a in c["actions"] if a["kind"] == "spend"} | \
+                   {owner[a["utxo"]] for a in c["actions"] if a["kind"] == "spend_utxo" and a["utxo"] in owner}
         quorum = {a["name"]: (a["quorum"], a["nkeys"]) for a in c["accounts"]}
         plans = [(p["acct"], tuple(p["order"])) for p in c["cosigners"] if p["acct"] in spenders]
         if r["fundable"] and r["balanced"] and c["built"]:
